@@ -248,6 +248,27 @@ impl<'tcx> Cx<'tcx> {
                 }
                 J::Null
             }
+            ty::FnPtr(..) => {
+                // a function pointer stored in a constant (a table of handlers): the function it points to
+                use rustc_middle::mir::interpret::{GlobalAlloc, Scalar};
+                let target = match val {
+                    ConstValue::Scalar(Scalar::Ptr(p, _)) => Some(p.into_raw_parts().0.alloc_id()),
+                    ConstValue::Indirect { alloc_id, offset } => {
+                        if let GlobalAlloc::Memory(alloc) = tcx.global_alloc(alloc_id) {
+                            alloc.inner().provenance().ptrs().get(&offset).map(|p| p.alloc_id())
+                        } else {
+                            None
+                        }
+                    }
+                    _ => None,
+                };
+                if let Some(id) = target {
+                    if let GlobalAlloc::Function { instance } = tcx.global_alloc(id) {
+                        return J::obj(vec![("fn", J::s(&def_str(tcx, instance.def_id())))]);
+                    }
+                }
+                J::Null
+            }
             ty::Ref(_, inner, _) if inner.is_str() => {
                 if let Some(bytes) = val.try_get_slice_bytes_for_diagnostics(tcx) {
                     return J::s(&String::from_utf8_lossy(bytes));
